@@ -141,7 +141,7 @@ SUITES = {
     'C07': [('operators_and_calls', _types, 'the typer (unification, Autocoerce insertion)',
              'every binary/comparison/unary operator x 15 operand types (identical pairs; 6 random mixed pairs per operator); calls with 0..3 parameters: exact, one argument dropped, one added, one mistyped, & missing; literal operands; all 169 casts; sized-array pointers; assignments through member/element chains (about 729 programs)'),
             ('typing_of_members_and_addresses', _types_extra, 'typer: typing of structure literal members, of assignments through member/element chains, of address depth',
-             '19 single programs, one obligation each: a structure literal member of another type (2), an excess address on an argument, well-typed assignments through member/element/pointer chains (6: element of an array member, member of an array element, through a pointer member, word into an array-of-words member, member of such an element, whole array member), ill-typed ones that must be E504 (4), an array view assigned to an array element, through a pointer, and to/through members (6: must be an error - E504 where the member path is involved -, not a failed assertion)')],
+             '30 single programs, one obligation each: excess, exact and missing addresses on arguments, initial values and assigned values (11); a structure literal member of another type (2), an excess address on an argument, well-typed assignments through member/element/pointer chains (6: element of an array member, member of an array element, through a pointer member, word into an array-of-words member, member of such an element, whole array member), ill-typed ones that must be E504 (4), an array view assigned to an array element, through a pointer, and to/through members (6: must be an error - E504 where the member path is involved -, not a failed assertion)')],
     'C08': [('mutating_uses', _mut, 'the whole-program consequence; the typer',
              '78 programs: 7 kinds of target x (assignment, address handed to a writing callee in 12 expression/statement contexts); whole-aggregate copies (E531-E533); local slices; elements/members of constants and of by-value word parameters; & missing on pointer arguments')],
     'C09': [('literal_range_lints', _literals, 'alpha parser (minus folding, signed/bit split), typer literal typing',
@@ -165,7 +165,7 @@ SUITES = {
             ('diagnostic_locations', _locations, 'alpha parser span bookkeeping (location_of_span, combined_with call sites), error.rs',
              'every Location in the diagnostics of 10 multi-line constructs, 120 (thorough: all 270) prefixes of one module cut at arbitrary characters (the file ends at its last token), 80 by-construction rejected programs, 60 (thorough: all) invalid samples and 40 CRLF variants: inside the source, starting on the reported line'),
             ('rendering', _render, 'error.rs build_report/write and the ariadne renderer',
-             'the diagnostics of <= 120 by-construction rejected programs and 40 (thorough: all) invalid samples x 4 colour/charset configurations: no failure, no escape sequence when colour is off, ASCII when colour is off and arrows are ascii'),
+             'the diagnostics of all (about 900) by-construction rejected programs of the C07/C08/C09 families and 40 (thorough: all) invalid samples x 4 colour/charset configurations: no failure, no escape sequence when colour is off, ASCII when colour is off and arrows are ascii'),
             ('alpha_lexer_spans', _lexa, 'none (spans are also proved: U-LEXA); kept as replay source', 'as C09.alpha_lexer_tokens'),
             ('alpha_lexer_spans_crlf', _lexa_crlf, 'the trusted model of str::split_inclusive / strip_suffix on which the proved line offsets rest',
              'as C09.alpha_lexer_tokens with every line end written CRLF')],
